@@ -104,6 +104,7 @@ revert-D11b C11
 revert-D12 C14
 revert-D13 C18 C10
 revert-D14 C18
+revert-D15 C05
 LIST
 mv $OUT.tmp $OUT
 git -C /repo status --short | head -3
